@@ -3,10 +3,6 @@ import Ogen.JsonEqualFinal_proof
     same value". Model of the scan in `jsonschema/parser.go` (all ordered pairs `i ≠ j`, errors of `Equal` ignored). -/
 namespace EnumDup
 
-/-- the double loop over `enum` -/
-def scan {α} (eq : α → α → Bool) (l : List α) : Bool :=
-  l.zipIdx.any (fun ai => l.zipIdx.any (fun bj => ai.2 != bj.2 && eq ai.1 bj.1))
-
 theorem scan_iff {α} (eq : α → α → Bool) (l : List α) :
     scan eq l = true ↔ ∃ i j, ∃ (hi : i < l.length) (hj : j < l.length), i ≠ j ∧ eq l[i] l[j] = true := by
   unfold scan
